@@ -254,8 +254,8 @@ RegionAt(c, pos) == LET rs == Regions(c) IN rs[CHOOSE i \in 1..Len(rs) : rs[i].l
 \*   svlzcut            the first octet of the value removed; offered for a value whose first octet is 0x00
 \*   svtzcut            the last octet of the value removed; offered for a value whose last octet is 0x00
 \*   ECDSA (DER SEQUENCE of the INTEGERs r, s) - the same pair (r, s) in other octets:
-\*   svder-seql             the length of the SEQUENCE in the long form (81 LL)
-\*   svder-rl / svder-sl    the length of r / s in the long form
+\*   svder-seql             the length of the SEQUENCE in the next longer, non-minimal form (LL -> 81 LL -> 82 00 LL)
+\*   svder-rl / svder-sl    the length of r / s in that form
 \*   svder-rz / svder-sz    r / s with one more leading zero octet (non-minimal INTEGER)
 \* `need` is the VALUE CLASS of the genuine signature value that the edit is defined on: "any", "lz" (first octet
 \* zero) or "tz" (last octet zero).  Bytes are not modelled; the executor realises a class by re-signing varied
